@@ -167,6 +167,15 @@ class ExprMixin:
                 return [Out("val", st, v)]
             if kind == "builtin":
                 return [Out("val", st, Val(py=("modattr", f"{base.py[1]}.{attr}")))]
+            if kind == "typeof" and attr == "__name__":
+                inner = base.py[1]
+                f = z3.Function("class_name", IntS, IntS)
+                if inner.py is not None and inner.py[0] == "exc":
+                    sid = f(inner.py[1].cls_expr())
+                else:
+                    sid = f(clsof(V.r(self.to_z(st, inner))))
+                st.assume(slen(sid) >= 1)
+                return [Out("val", st, Val(V.S(sid), th=TH("str")))]
             raise Unsupported(f"attribute {attr} of {kind}", node)
         if base.tup is not None:
             raise Unsupported("attribute of tuple", node)
@@ -213,8 +222,14 @@ class ExprMixin:
         if base.th is not None and base.th.strip_optional().name in ("Namespace",):
             fth = self.ns_field_hint(st, attr)
             return [Out("val", st, self.typed(st, st.hread("ns." + attr, V.r(base.z)), fth))]
-        # unknown class: plain field read, hint from contract types only
+        # unknown class: plain field read, hint from contract types / the global field table
         fth = self.contract_type(st, node) if node is not None else None
+        if fth is None and base.th is not None:
+            from .spec import REGISTRY
+
+            g = REGISTRY.get("$fields")
+            t = g.types.get(f"{base.th.strip_optional().name}.{attr}") if g else None
+            fth = parse_hint(t) if t else None
         if base.z is None:
             raise Unsupported(f"attribute {attr} on static value", node)
         return [Out("val", st, self.typed(st, st.hread(attr, V.r(base.z)), fth))]
